@@ -336,15 +336,6 @@ theorem multi_expired_final (mw : MWorld) (es : List MEv) (k : Nat) (v : World) 
   obtain ⟨a, b, _⟩ := expired_final v hx evs hno
   exact ⟨_, h, a, b⟩
 
-/-- a fresh request's view: pending, own deadline, live entry, and it agrees with the connection -/
-theorem new_request_view (env : World) (n : Nat) (τ : Option Int) :
-    (newView env n τ).ar.isReady = false ∧ (newView env n τ).ar.ttl = Timeout.make env.now τ
-      ∧ (newView env n τ).live = true ∧ (newView env n τ).seq = n ∧ Inv (newView env n τ)
-      ∧ Agree (newView env n τ) env := by
-  refine ⟨rfl, rfl, rfl, rfl, ?_, newView_agree env n τ⟩
-  intro h
-  simp [newView, setExpiry, AR.init] at h
-
 /-! ### generated facts about the source (regenerated from /repo on every run) -/
 
 /-- the slots of `AsyncResult` are exactly the state the model has: `_is_ready`, `_is_exc`, `_obj`,
